@@ -2,6 +2,7 @@ package verifsim
 
 import (
 	"fmt"
+	"os"
 	"regexp"
 	"strings"
 
@@ -158,8 +159,9 @@ type UciRunOut struct {
 	Faults     map[string]int
 	Probes     map[string]int
 	SigHash    uint64 // interleaving signature
-	LeftTimers int    // timer goroutines still alive two fake hours after the session
-	LeftSearch bool   // search goroutine still alive
+	Arrivals   []string
+	LeftTimers int  // timer goroutines still alive two fake hours after the session
+	LeftSearch bool // search goroutine still alive
 	CleanExit  bool
 	Sim        *Sim
 }
@@ -423,7 +425,16 @@ func simSearching(s *Sim) bool { return s.SearchActive }
 // a damaged "position fen ..." line: the first up to six fen fields (missing
 // ones defaulted), followed by the whole or the legal prefix of the moves.
 func tolerantPositions(line string) []string {
-	tok := strings.Fields(line)
+	// two notions of white space: Unicode (strings.Fields) and ASCII only
+	out := tolerantPositionsTok(strings.Fields(line))
+	ascii := strings.FieldsFunc(line, func(r rune) bool { return r == ' ' || r == '\t' || r == '\n' || r == '\f' || r == '\r' || r == '\v' })
+	out = append(out, tolerantPositionsTok(ascii)...)
+	// (the regexp class \s: without vertical tab)
+	re := strings.FieldsFunc(line, func(r rune) bool { return r == ' ' || r == '\t' || r == '\n' || r == '\f' || r == '\r' })
+	return append(out, tolerantPositionsTok(re)...)
+}
+
+func tolerantPositionsTok(tok []string) []string {
 	if len(tok) < 2 || tok[0] != "position" {
 		return nil
 	}
@@ -543,6 +554,9 @@ func (out *UciRunOut) noteArrival(sim *Sim, us *UciSession, st *Step, tok []stri
 	h = (h ^ uint64(ph)) * 1099511628211
 	h = (h ^ uint64(tl)) * 1099511628211
 	out.SigHash = h
+	if debugArrivals {
+		out.Arrivals = append(out.Arrivals, fmt.Sprintf("%d %s ph=%d tl=%d", sim.Now(), kind, ph, tl))
+	}
 	active := ph >= phIter1
 	switch kind {
 	case "stop":
@@ -583,3 +597,5 @@ func (out *UciRunOut) noteArrival(sim *Sim, us *UciSession, st *Step, tok []stri
 		out.Faults["F7_damaged_line"]++
 	}
 }
+
+var debugArrivals = os.Getenv("VERIF_DEBUG_ARRIVALS") != ""
